@@ -135,13 +135,17 @@ def gen_regplan(rng, n, family=None, cfg=None):
         anc_reg = any(rp.role[p] in REGISTERED or reg_anc(p) for p in preds)
         has_reg_anc[nd.id] = anc_reg
         r = rng.random()
-        if preds and anc_reg and r < p_dsrc:
+        # (one producer in five has NO registered ancestor: nothing upstream of its sources carries a modified time - such a source is out of date
+        # only when it is missing, whatever fresh_time says)
+        if preds and (anc_reg or rng.random() < 0.2) and r < p_dsrc:
             rp.role[nd.id] = "producer"
             # the producer writes one store, or several in a fixed order: sources chained by add_dependency
             # (call -> source A -> source B, as in test_failed_to_read_from_empty_store_2), possibly through a milestone literal
             chain = []
             prev = nd.id
             k = 1 + int(rng.random() < p_chain) + int(rng.random() < p_chain * 0.4)
+            if not anc_reg:
+                k = 1  # (behind a time-less producer a second chain member would be "older than fresh_time" for ever with nobody to rewrite it: section 5)
             for _ in range(k):
                 if rng.random() < 0.2:
                     lit = ir.add("lit", value="milestone", fname="ulit")
